@@ -252,6 +252,8 @@ def run(ctx):
     import props.C06_line as LI
     LI.prove_read_head(ctx)
     LI.prove_line(ctx)
+    import props.C01_read as RS
+    RS.prove_dfxp_p_skeleton(ctx)     # (the DFXP reader's node list is per paragraph: nothing of an earlier or refused paragraph)
     ctx.bounded("histories", "sample documents of the six input formats (multi-language SAMI / DFXP, styles, layouts, "
                 "pop-on and roll-up SCC): every order of two documents on one reader object then the first again, "
                 "editing one result (add_style, caption style, nodes, list) and unrelated writes in between, "
